@@ -17,6 +17,7 @@ def run_attr_property(ck, pid, pfile, deps, oracle, nquick, nthorough, cross_onl
     n = nquick if ck.tier == "quick" else nthorough
     ir = attrs.load_ir() if r["ok"] else None
     irbad = []
+    coq_samples = []
     dist = {}
     made = 0
     def one():
@@ -28,6 +29,8 @@ def run_attr_property(ck, pid, pfile, deps, oracle, nquick, nthorough, cross_onl
         if ir is not None:
             for nm, what in attrs.check_ir(res, ir):
                 irbad.append("%s (%s)" % (what, nm))
+            if made <= 8:
+                coq_samples.extend(attrs.coq_attr_samples(res, ir, ck.rng))
         for tag, what in oracle(res, an, info, ck.rng):
             inp = info_brief(info); inp["seed_state"] = None
             inp["x"] = [float(v) for v in info["x"]]; inp["y"] = [float(v) for v in info["y"]]
@@ -35,6 +38,10 @@ def run_attr_property(ck, pid, pfile, deps, oracle, nquick, nthorough, cross_onl
         return info
     infos = [one() for _ in range(n)]
     ck.obligation("correspondence:generated attribute table (IR of gen/AttrsGen.v) == attribute values of real results", not irbad, "; ".join(irbad[:4]))
+    if ir is not None:
+        cbad, ncoq = attrs.coq_eval_attrs(coq_samples, attrs.transcendental_names(ir))
+        ck.obligation("correspondence:gen/AttrsGen.v definitions evaluated at binary64 (vm_compute) == attribute values of real results", not cbad, "; ".join(cbad[:4]))
+        ck.cov["coq_attribute_evaluations"] = ncoq
     if extra:
         extra(ck)
     broken = [o for o in ck.obl if not o[1]]
